@@ -60,8 +60,11 @@ Expected(kind) == CASE kind = "sub" -> "SUBSCRIBED" [] kind = "unsub" -> "UNSUBS
 \* --------------------------------------------------------------------------
 \* an application goroutine g starts a blocking operation.  name = topic / procedure;
 \* prog = the call has a progress handler
-ApiFx(S, g, kind, name, prog) ==
-  LET gone(T) == [T EXCEPT !.ops = (g :> [kind |-> kind, req |-> 0, st |-> "done", dl |-> 0, prog |-> prog, name |-> name]) @@ @]
+\* slow = how long the call's progress handler takes per progressive result (ms): Call does not
+\* return before a handler that is still running has finished (busy = until when it runs)
+ApiFx(S, g, kind, name, prog, slow) ==
+  LET gone(T) == [T EXCEPT !.ops = (g :> [kind |-> kind, req |-> 0, st |-> "done", dl |-> 0, prog |-> prog, name |-> name,
+                                           slow |-> slow, busy |-> 0, rout |-> <<>>]) @@ @]
       \* Unsubscribe / Unregister forget the handler first, whatever happens next
       S0 == IF kind = "unsub" /\ name \in DOMAIN S.csubs THEN [S EXCEPT !.csubs = [t \in DOMAIN @ \ {name} |-> @[t]]]
             ELSE IF kind = "unreg" /\ name \in DOMAIN S.cregs THEN [S EXCEPT !.cregs = [t \in DOMAIN @ \ {name} |-> @[t]]]
@@ -72,7 +75,7 @@ ApiFx(S, g, kind, name, prog) ==
   ELSE IF kind = "unreg" /\ name \notin DOMAIN S.cregs THEN Ret(gone(S), g, "nosuch", 0)
   ELSE IF ~S.conn THEN Ret(gone(S0), g, "notconn", 0)
   ELSE LET id == S.nreq + 1
-           op == [kind |-> kind, req |-> id, st |-> "waiting", prog |-> prog, name |-> name,
+           op == [kind |-> kind, req |-> id, st |-> "waiting", prog |-> prog, name |-> name, slow |-> slow, busy |-> 0, rout |-> <<>>,
                   \* a call waits as long as its context lives; everything else for the response timeout
                   dl |-> IF kind = "call" THEN 0 ELSE S.now + S.rt]
        IN EmitC([S0 EXCEPT !.nreq = id, !.ops = (g :> op) @@ @], ReqKind(kind), id, x)
@@ -80,9 +83,16 @@ ApiFx(S, g, kind, name, prog) ==
 \* --------------------------------------------------------------------------
 \* a message carrying a request id arrives: mk = its type ("RESULTP" = progressive
 \* RESULT), a = the subscription / registration id it assigns
-Waiter(S, id) == {g \in Active(S) : S.ops[g].req = id}
+Waiter(S, id) == {g \in Active(S) : S.ops[g].req = id /\ S.ops[g].st # "returning"}
 
 Finish(S, g) == [S EXCEPT !.ops[g].st = "done"]
+
+\* the operation of g is over with outcome out: it returns now - or, if its progress handler is
+\* still running, when that has finished (no progress callback runs after Call has returned)
+RetWhenFree(S, g, out, req) ==
+  IF S.ops[g].busy > S.now
+  THEN [S EXCEPT !.ops[g].st = "returning", !.ops[g].dl = S.ops[g].busy, !.ops[g].rout = <<out, req>>]
+  ELSE Ret(Finish(S, g), g, out, req)
 
 ReplyFx(S, id, mk, a) ==
   IF ~S.conn \/ Waiter(S, id) = {} THEN S                     \* nobody waits for it: dropped
@@ -90,19 +100,20 @@ ReplyFx(S, id, mk, a) ==
            op == S.ops[g]
        IN IF op.st = "canceling"
           THEN \* after CANCEL everything but the ERROR is discarded; the call returns the context's error
-               IF mk = "ERROR" THEN Ret(Finish(S, g), g, "ctx", 0) ELSE S
+               IF mk = "ERROR" THEN RetWhenFree(S, g, "ctx", 0) ELSE S
           ELSE IF op.kind = "call" /\ mk = "RESULTP" /\ op.prog
-          THEN Cb(S, "prog", GNum(g), a)                         \* a = sequence number carried by the payload
+          THEN Cb([S EXCEPT !.ops[g].busy = IF op.slow > 0 THEN S.now + op.slow ELSE @],
+                  "prog", GNum(g), a)                            \* a = sequence number carried by the payload
           ELSE LET S1 == Finish(S, g)
                    \* only Call hands the reply itself to the application (its request id is observable)
                    rid == IF op.kind = "call" THEN id ELSE 0
                IN
-               CASE mk = "ERROR" -> Ret(S1, g, IF op.kind = "call" THEN "rpcerr" ELSE "err", rid)
+               CASE mk = "ERROR" -> IF op.kind = "call" THEN RetWhenFree(S, g, "rpcerr", rid) ELSE Ret(S1, g, "err", rid)
                  [] mk = Expected(op.kind) \/ (op.kind = "call" /\ mk = "RESULTP") ->
                       LET S2 == IF op.kind = "sub" THEN [S1 EXCEPT !.csubs = (op.name :> a) @@ @]
                                 ELSE IF op.kind = "reg" THEN [S1 EXCEPT !.cregs = (op.name :> a) @@ @]
                                 ELSE S1
-                      IN Ret(S2, g, "ok", rid)
+                      IN IF op.kind = "call" THEN RetWhenFree(S, g, "ok", rid) ELSE Ret(S2, g, "ok", rid)
                  [] OTHER -> Ret(S1, g, "unexpected", 0)
 
 \* the context of g's call is cancelled (or its deadline passes): CANCEL with the
@@ -181,8 +192,13 @@ NextSched(S, upto) ==
 
 FireTimersAt(S, t) ==
   LET S0 == [S EXCEPT !.now = t]
-      g1 == {g \in Active(S0) : S0.ops[g].dl = t}
-      S1 == ReturnAll([S0 EXCEPT !.ops = [g \in DOMAIN @ |-> IF g \in g1 THEN [@[g] EXCEPT !.dl = 0] ELSE @[g]]], g1, "timeout")
+      gr == {g \in Active(S0) : S0.ops[g].dl = t /\ S0.ops[g].st = "returning"}
+      RECURSIVE retAll(_, _)
+      retAll(T, gs) == IF gs = {} THEN T
+                       ELSE LET g == CHOOSE x \in gs : TRUE IN retAll(Ret(Finish(T, g), g, T.ops[g].rout[1], T.ops[g].rout[2]), gs \ {g})
+      Sr == retAll(S0, gr)
+      g1 == {g \in Active(Sr) : Sr.ops[g].dl = t}
+      S1 == ReturnAll([Sr EXCEPT !.ops = [g \in DOMAIN @ |-> IF g \in g1 THEN [@[g] EXCEPT !.dl = 0] ELSE @[g]]], g1, "timeout")
       i1 == {i \in Running(S1) : S1.invs[i].dl = t}
       RECURSIVE kill(_, _)
       kill(T, is) == IF is = {} THEN T ELSE LET i == CHOOSE x \in is : TRUE IN kill(KillInvFx(T, i), is \ {i})
